@@ -134,8 +134,8 @@ type loopInfo struct {
 }
 
 type Engine struct {
-	acqMemo   map[*ssa.Function]map[*ssa.Global]bool // declared mutexes a function acquires (syntactic, transitive)
-	privAlloc map[string]*ssa.Alloc // private cells ($priv:n): captured locals only this frame and its own closures can reach
+	acqMemo         map[*ssa.Function]map[*ssa.Global]bool // declared mutexes a function acquires (syntactic, transitive)
+	privAlloc       map[string]*ssa.Alloc                  // private cells ($priv:n): captured locals only this frame and its own closures can reach
 	prog            *ssa.Program
 	db              *SpecDB
 	decls           []string
